@@ -292,4 +292,6 @@ def run(ctx: Ctx, tier: str) -> Result:
         res.ok("C13.API", {"unregister passes the stored handle": True})
     else:
         res.fail(Finding("C13.API", un.qname, rc[0] if rc else "<remove_custom>", un.loc(), "unregister does not pass the handle it was created with to remove_custom"))
+    from .common import borrow
+    borrow(ctx, res, tier, "c12", ("C12.APPLY",), "C13.INSTALL", "the trigger handler installs every published tracepoint (registered ones alongside the service's)")
     return res
